@@ -45,7 +45,7 @@ class Known:
         return self.rx.get((cpu, key))
 
 
-def check_template(w, s, cpu, directive, unit, t, span, is_reg):
+def check_template(w, s, cpu, directive, unit, t, span, is_reg, quick=False):
     """returns None or a failure dict"""
     org = ORG // unit
     if is_reg:
@@ -106,7 +106,7 @@ def check_template(w, s, cpu, directive, unit, t, span, is_reg):
         run(v)
     if not is_reg:
         for v in list(acc):
-            for j in (4, 5, 6, 7, 8, 9, 10, 11, 12, 13, 15, 16, 17, 20, 21, 24, 26, 31, 32):
+            for j in ((4, 8, 12, 16, 24, 32) if quick else (4, 5, 6, 7, 8, 9, 10, 11, 12, 13, 15, 16, 17, 20, 21, 24, 26, 31, 32)):
                 run(v + (1 << j))
                 run(v - (1 << j))
         for v in sorted(tried):
@@ -253,6 +253,8 @@ def run(tier, seed, shard, nshards):
             directive = progs.CPU_FILES.get(cpu, cpu)
             unit = units.get(directive, 1)
             ci = info.get(directive, dict(unit=1, align=1))
+            import time as _t
+            t_cpu = _t.time()
             texts = rendering_texts(w, cpu, ci["unit"], ci["align"])
             corp = templates_of(cpu)
             rend = templates_of(cpu, texts)[len(corp):]
@@ -272,7 +274,7 @@ def run(tier, seed, shard, nshards):
             templates = corp + rend
             for t, span, is_reg, key in templates:
                 try:
-                    res = check_template(w, s, cpu, directive, unit, t, span, is_reg)
+                    res = check_template(w, s, cpu, directive, unit, t, span, is_reg, quick=(tier == "quick"))
                 except Violation as v:
                     if survey:
                         s.notes.append("SURVEY\t%s\t%s\tcrash\t%s" % (cpu, key, str(v.payload.get("detail"))[-150:]))
@@ -303,6 +305,7 @@ def run(tier, seed, shard, nshards):
                                                "register_collision": "two different register numbers share an encoding",
                                                "inconsistent_field_width": "signed/unsigned aliases with different widths "
                                                                            "in one field"}[res["kind"]]))
+            s.count("seconds.%s" % cpu, int(_t.time() - t_cpu))
             if len(s.samples) < 3 and templates:
                 t, span, is_reg, key = templates[0]
                 s.sample(dict(cpu=cpu, template=t[:span[0]] + "@" + t[span[1]:], register_hole=is_reg))
